@@ -25,6 +25,7 @@ import (
 	"tunnox-core/internal/packet"
 	"tunnox-core/internal/protocol/session"
 	"tunnox-core/internal/stream"
+	"tunnox-core/verifharness/doubles"
 	"tunnox-core/verifharness/fw"
 )
 
@@ -96,9 +97,19 @@ func (h hsClient) Read(p []byte) (int, error) {
 // attachPkt opens the target's tunnel connection the way a target client does.
 func (r *run) attachPkt() error {
 	c, _ := r.targetConn()
+	return r.openPkt(c, dstClient, func() {
+		r.w.log(fw.Event{"ev": "Attach", "k": r.b.kindOfAttach()})
+		r.w.attachAt = time.Now()
+	})
+}
+
+// openPkt brings a client's tunnel connection to the server through the packet path: AcceptConnection,
+// Handshake (connection_type "tunnel"), TunnelOpen. shaken (optional) runs under the world lock once the
+// handshake is through.
+func (r *run) openPkt(c *fakeConn, clientID int64, shaken func()) error {
 	w := r.w
 	w.mu.Lock()
-	held := c.in // a target client writes tunnel bytes only once the tunnel is open
+	held := c.in // a client writes tunnel bytes only once the tunnel is open
 	c.in, c.hs = nil, true
 	w.mu.Unlock()
 
@@ -134,24 +145,25 @@ func (r *run) attachPkt() error {
 		return json.Unmarshal(pkt.Payload, resp)
 	}
 	var hs packet.HandshakeResponse
-	if err := call(packet.Handshake, &packet.HandshakeRequest{ClientID: dstClient, Version: "verif", Protocol: "tcp", ConnectionType: "tunnel"},
+	if err := call(packet.Handshake, &packet.HandshakeRequest{ClientID: clientID, Version: "verif", Protocol: "tcp", ConnectionType: "tunnel"},
 		packet.HandshakeResp, &hs); err != nil || !hs.Success {
-		return errors.New("handshake of the target's tunnel connection failed")
+		return errors.New("handshake of the tunnel connection failed")
 	}
-	w.mu.Lock()
-	w.log(fw.Event{"ev": "Attach", "k": "pkt"})
-	w.attachAt = time.Now()
-	w.mu.Unlock()
+	if shaken != nil {
+		w.mu.Lock()
+		shaken()
+		w.mu.Unlock()
+	}
 	var ack packet.TunnelOpenAckResponse
 	if err := call(packet.TunnelOpen, &packet.TunnelOpenRequest{MappingID: mappingID, TunnelID: tunnelID, SecretKey: "k"},
 		packet.TunnelOpenAck, &ack); err != nil || !ack.Success {
-		return errors.New("tunnel open of the target's tunnel connection failed")
+		return errors.New("tunnel open of the tunnel connection failed")
 	}
 	w.mu.Lock()
 	c.hs = false
 	if len(c.hsOut) > 0 {
-		// the bridge started copying as soon as the server had attached the connection: what it wrote
-		// behind the acknowledgement is tunnel data
+		// the server started copying as soon as it had attached the connection: what it wrote behind
+		// the acknowledgement is tunnel data
 		c.deliver(c.hsOut)
 		c.hsOut = nil
 	}
@@ -229,13 +241,34 @@ func (r *run) attachXnode() error {
 	w.log(fw.Event{"ev": "Attach", "k": "xnode"})
 	w.attachAt = time.Now()
 	w.mu.Unlock()
-	if _, err := x.cli.Write(first.Bytes()); err != nil {
-		return err
-	}
 	l := session.NewCrossNodeListener(r.sm, 0)
-	go crossNodeHandleConnection(l, r.ctx, x.srv)
+	if r.b.Frag {
+		// the frame arrives in two segments: the listener is already reading when the rest comes
+		if _, err := x.cli.Write(first.Bytes()[:7]); err != nil {
+			return err
+		}
+		go crossNodeHandleConnection(l, r.ctx, x.srv)
+		time.Sleep(3 * time.Millisecond)
+		if _, err := x.cli.Write(first.Bytes()[7:]); err != nil {
+			return err
+		}
+	} else {
+		if _, err := x.cli.Write(first.Bytes()); err != nil {
+			return err
+		}
+		go crossNodeHandleConnection(l, r.ctx, x.srv)
+	}
 
-	// target -> node connection
+	r.pumps(c, x.cli)
+	return nil
+}
+
+// pumps: an end whose connection to the server is a real TCP connection keeps its fake connection as
+// its books (what it wrote, what it received, whether it saw end-of-stream); two pumps move the bytes
+// between those books and the TCP connection.
+func (r *run) pumps(c *fakeConn, tcp *net.TCPConn) {
+	w := r.w
+	// end -> node connection
 	go func() {
 		for {
 			w.mu.Lock()
@@ -250,14 +283,14 @@ func (r *run) attachXnode() error {
 			w.mu.Unlock()
 			switch {
 			case chunk != nil:
-				if _, err := x.cli.Write(chunk); err != nil {
+				if _, err := tcp.Write(chunk); err != nil {
 					return
 				}
 			case failed, eof:
 				if failed {
-					x.cli.SetLinger(0) // connection reset
+					tcp.SetLinger(0) // connection reset
 				}
-				x.cli.Close()
+				tcp.Close()
 				w.mu.Lock()
 				if !c.closed {
 					c.closed, c.closeT = true, time.Now() // (the end's own doing; only the other end's closure is judged)
@@ -269,28 +302,134 @@ func (r *run) attachXnode() error {
 			}
 		}
 	}()
-	// node connection -> target
+	// node connection -> end
 	go func() {
 		buf := make([]byte, copyBuf)
 		for {
-			n, err := x.cli.Read(buf)
+			n, err := tcp.Read(buf)
 			w.mu.Lock()
 			if n > 0 && !c.inEOF && !c.failed {
 				c.deliver(buf[:n])
 			}
 			if err != nil {
 				if !c.closed && !c.inEOF && !c.failed {
-					// end-of-stream from the source node: the target observes closure - and does what a
-					// peer node does then, it closes its side
+					// end-of-stream from the server: the end observes closure - and does what a peer
+					// node does then, it closes its side
 					c.closed, c.closeT = true, time.Now()
 				}
 				w.cond.Broadcast()
 				w.mu.Unlock()
-				x.cli.Close()
+				tcp.Close()
 				return
 			}
 			w.mu.Unlock()
 		}
 	}()
+}
+
+// ---- fwd ------------------------------------------------------------------------------------------
+// The server in the OTHER cross-node role: it is the target's node. The bridge lives on the source's node
+// (played by the driver: a TCP listener); the target's tunnel connection arrives through the packet path,
+// handleTunnelOpen finds the tunnel in the routing table (source node = another node) and
+// forwardToSourceNode acknowledges, dials the source node through the TunnelConnectionManager, sends the
+// TargetReady frame and runCrossNodeDataForwardDedicated splices the target's connection and that TCP
+// connection with two io.Copy loops. For this server the source end IS the TCP connection; "the server
+// forgets the tunnel" = the TunnelConnectionManager has no connection for it any more.
+
+const (
+	srcNode = "node-S"
+	ownNode = "node-T"
+	idleFor = 400 * time.Millisecond // IdleTimeout of the TunnelConnectionManager in scripts with a hold step (real: 5 min, swept every 30 s)
+)
+
+// cleanupIdleConnections is what the manager's 30 s ticker calls; a hold step lets that tick happen.
+//
+//go:linkname tcmCleanupIdle tunnox-core/internal/protocol/session.(*TunnelConnectionManager).cleanupIdleConnections
+func tcmCleanupIdle(m *session.TunnelConnectionManager)
+
+// setupFwd: routing table with the waiting tunnel of the source's node, the connection manager, and the
+// source node's listener. The first frame on an accepted connection must be TargetReady for this tunnel;
+// from then on the connection carries the source end's bytes.
+func (r *run) setupFwd(hasHold bool) error {
+	ln, err := net.Listen("tcp", "127.0.0.1:0")
+	if err != nil {
+		return err
+	}
+	x := &xnode{ln: ln}
+	r.xn = x
+	r.sm.SetNodeID(ownNode)
+	rt := session.NewTunnelRoutingTable(doubles.NewStore("route", nil), 0)
+	if err := rt.RegisterWaitingTunnel(r.ctx, &session.TunnelWaitingState{TunnelID: tunnelID, MappingID: mappingID, SecretKey: "k",
+		SourceNodeID: srcNode, SourceClientID: srcClient, TargetClientID: dstClient}); err != nil {
+		return err
+	}
+	r.sm.SetTunnelRoutingTable(rt)
+	cfg := session.DefaultTunnelConnectionManagerConfig()
+	if hasHold {
+		cfg.IdleTimeout = idleFor
+	}
+	r.tcm = session.NewTunnelConnectionManager(func(node string) (string, error) {
+		if node != srcNode {
+			return "", errors.New("unknown node " + node)
+		}
+		return ln.Addr().String(), nil
+	}, cfg)
+	r.sm.SetTunnelConnectionManager(r.tcm)
+	sc, _ := r.newConn("S") // the source end's books
+	go func() {
+		s, err := ln.Accept()
+		if err != nil {
+			return
+		}
+		tcp := s.(*net.TCPConn)
+		r.w.mu.Lock()
+		x.srv = tcp
+		r.w.mu.Unlock()
+		id, ft, data, err := session.ReadFrame(tcp)
+		full, _, derr := session.DecodeTargetReadyMessage(data)
+		if err != nil || derr != nil || ft != session.FrameTypeTargetReady || session.TunnelIDToString(id) == "" || full != tunnelID {
+			r.w.mu.Lock()
+			r.late = "the source node did not get a TargetReady frame for the tunnel"
+			r.w.mu.Unlock()
+			tcp.Close()
+			return
+		}
+		r.pumps(sc, tcp)
+	}()
 	return nil
+}
+
+// busyHold: the tunnel outlives the heartbeat / idle timeouts while both ends keep talking (a byte each
+// every 100 ms); then the connection manager's sweep ticks.
+func (r *run) busyHold(d time.Duration) {
+	w := r.w
+	for t0 := time.Now(); time.Since(t0) < d; time.Sleep(100 * time.Millisecond) {
+		w.mu.Lock()
+		for _, e := range []string{"S", "T"} {
+			en := w.ends[e]
+			if len(en.conns) == 0 || w.ended != "none" {
+				continue
+			}
+			if c := en.cur(); !c.inEOF && !c.failed {
+				// (a write into a connection the server has just closed by itself still goes out: see "send")
+				dir := outOf(e)
+				w.log(fw.Event{"ev": "Send", "e": e, "dir": dir, "n": 1})
+				if !c.closed {
+					c.in = append(c.in, fill(tagOf(dir), en.sendOff, 1))
+				}
+				en.sendOff++
+			}
+		}
+		w.cond.Broadcast()
+		w.mu.Unlock()
+	}
+	if r.tcm != nil {
+		// the sweep ticks right behind moving bytes: wait until the last round has arrived (a starved
+		// process must not make a busy tunnel look idle)
+		r.poll(2*time.Second, func() bool {
+			s, t := w.ends["S"], w.ends["T"]
+			return (s.recvOff == t.sendOff && t.recvOff == s.sendOff) || w.ended != "none" || r.bridgeGone()
+		})
+		tcmCleanupIdle(r.tcm)
+	}
 }
